@@ -89,6 +89,18 @@ func c19RefFind(re *regexp.Regexp, s string, n int) c19Want {
 	return w
 }
 
+// count omitted: the docs list the parameter but do not say what leaving it
+// out means; both natural readings (first match only / all matches) are accepted
+func c19RefFindNoCount(re *regexp.Regexp, s string) c19Want {
+	a, b := c19RefFind(re, s, 1), c19RefFind(re, s, -1)
+	ca, cb := c19CanonDrop(a.val), c19CanonDrop(b.val)
+	if ca == cb {
+		return a
+	}
+	return c19Want{kind: wPred, maxStr: -1, predDesc: "the matches for count 1 " + trunc(ca, 250) + " or for count -1 " + trunc(cb, 250),
+		pred: func(out tengo.Object) bool { c := c19CanonDrop(out); return c == ca || c == cb }}
+}
+
 func c19RefPad(left bool, s string, n int, pad string) c19Want {
 	if len(s) >= n {
 		return wantV(vS(s))
@@ -215,6 +227,10 @@ func c19Text() []*c19Fn {
 	add(c19Mk("text", "replace", "", []c19Kind{S, S, S, I},
 		func(g *c19G) c19Call {
 			s, old := g.pairSS()
+			if g.rng.Intn(6) == 0 {
+				// empty search string: the replacement goes before every rune (1- to 4-byte) and at the end
+				s, old = pick(g.rng, []string{"日本語", "héllo wörld", "a€b😀c", "😀", "ab", "日a本b", "\xff日\xfe", g.str()}), ""
+			}
 			nw := pick(g.rng, []string{"", "X", "日本", "ab", "ba", old, old + old, "--", "é"})
 			return c19Args(vS(s), vS(old), vS(nw), vI(g.small(-1, 4)))
 		},
@@ -229,7 +245,7 @@ func c19Text() []*c19Fn {
 			hi := lo + g.rng.Intn(n-lo+1)
 			switch g.rng.Intn(8) {
 			case 0:
-				return c19Args(vS(s), vI(int64(lo))) // upper omitted: not described by the docs
+				return c19Args(vS(s), vI(int64(lo))) // upper omitted
 			case 1:
 				return c19Args(vS(s), vI(g.small(-3, n+3)), vI(g.small(-3, n+3)))
 			}
@@ -237,6 +253,10 @@ func c19Text() []*c19Fn {
 		},
 		func(c *c19Call) c19Want {
 			if len(c.args) < 3 {
+				// upper omitted: Go's s[lower:]
+				if s, lo := aS(c, 0), aI(c, 1); lo >= 0 && lo <= int64(len(s)) {
+					return wantV(vS(s[lo:]))
+				}
 				return wantTotal()
 			}
 			s, lo, hi := aS(c, 0), aI(c, 1), aI(c, 2)
@@ -396,7 +416,7 @@ func c19Text() []*c19Fn {
 	f = add(c19Mk("text", "re_find", "", []c19Kind{S, S, I},
 		func(g *c19G) c19Call {
 			if g.rng.Intn(8) == 0 {
-				return c19Args(vS(g.pattern(false)), vS(g.reText())) // count omitted: not described by the docs
+				return c19Args(vS(g.pattern(false)), vS(g.reText())) // count omitted
 			}
 			return c19Args(vS(g.pattern(true)), vS(g.reText()), vI(pick(g.rng, counts)))
 		},
@@ -406,7 +426,7 @@ func c19Text() []*c19Fn {
 				return wantE(err)
 			}
 			if len(c.args) < 3 {
-				return wantTotal()
+				return c19RefFindNoCount(re, aS(c, 1))
 			}
 			return c19RefFind(re, aS(c, 1), int(aI(c, 2)))
 		}))
@@ -434,7 +454,7 @@ func c19Text() []*c19Fn {
 				return wantE(err)
 			}
 			if len(c.args) < 3 {
-				return wantTotal()
+				return wantV(vSs(re.Split(aS(c, 1), -1))) // count omitted: no limit (Go's n < 0)
 			}
 			return wantV(vSs(re.Split(aS(c, 1), int(aI(c, 2)))))
 		}))
@@ -476,7 +496,7 @@ func c19Text() []*c19Fn {
 		},
 		func(re *regexp.Regexp, c *c19Call) c19Want {
 			if len(c.args) < 3 {
-				return wantTotal()
+				return c19RefFindNoCount(re, aS(c, 1))
 			}
 			return c19RefFind(re, aS(c, 1), int(aI(c, 2)))
 		})
@@ -493,7 +513,7 @@ func c19Text() []*c19Fn {
 		},
 		func(re *regexp.Regexp, c *c19Call) c19Want {
 			if len(c.args) < 3 {
-				return wantTotal()
+				return wantV(vSs(re.Split(aS(c, 1), -1)))
 			}
 			return wantV(vSs(re.Split(aS(c, 1), int(aI(c, 2)))))
 		})
